@@ -65,7 +65,15 @@ Print Assumptions C11_impl_rel_is_path_rel.
 (* Termination on every graph (cycles, self-loops), for every well-formed path -
    stated separately from the semantics, so also inside F4c: the depth-first
    searches never run out of the fuel |subject/object occurrences| + 1, and
-   nothing raises. *)
+   nothing raises.
+   This is a statement about the ALGORITHM: the model has no counterpart of the
+   Python interpreter's stack.  The code as it stood until round 4 implemented the
+   searches as recursive generators, one frame chain per path step, and raised
+   RecursionError on closures deeper than the recursion limit (~1000 steps; a chain
+   of 3000 triples); "nothing raises" was then true of the model and false of the
+   code for such graphs (finding F4f, repaired by an explicit-stack search with the
+   same visiting order - see notes/C11.md).  The interpreter's resources (stack,
+   memory) remain outside the model. *)
 Theorem C11_terminates : forall g p s o,
   wfp p = true ->
   eval g (fuel g) p s o <> OutOfFuel /\ eval g (fuel g) p s o <> Raised.
@@ -199,13 +207,16 @@ Proof. intros c. apply h_spec_model. Qed.
 Print Assumptions C11_history_model_partial.
 
 (* ... and an accepted history answers each evaluation from the graph as it is
-   after the mutations that precede it (no stale answers). *)
+   after the mutations that precede it (no stale answers).  Positional: there is
+   exactly one observation per evaluation step, and the observation judged for a
+   step is the one AT the step's position among the evaluations. *)
 Theorem C11_history_reading : forall steps g os,
   h_spec g steps os = true ->
+  length os = n_evals steps /\
   forall pre p s o sp post, steps = pre ++ HEval p s o sp :: post ->
   let g' := fold_left (fun g st => match st with HAdd t => g_add t g | HDel t => g_del t g | _ => g end) pre g in
-  exists ob, spec_ok (hc g' p s o sp) ob = true /\ In ob os.
-Proof. exact h_spec_reading. Qed.
+  exists ob, nth_error os (n_evals pre) = Some ob /\ spec_ok (hc g' p s o sp) ob = true.
+Proof. exact h_spec_reading_pos. Qed.
 Print Assumptions C11_history_reading.
 
 (* The SPARQL route.  [ptree] is the tree parser.py builds for the Path grammar,
